@@ -476,7 +476,7 @@ fn error_paths(report: &Report) {
 /// compared in bytes) lands inside a character for some shift.
 fn awkward_strings(report: &Report) {
     let parser = cfgs::parser(Config::Full);
-    let triggers = ["&", "<", ">", "%", "+", "'", "\"", " ", "\n", ",", "/", "-", ".", ":", "&#", "&a", "</", "%2", "1", "{"];
+    let triggers = ["&", "<", ">", "%", "+", "'", "\"", " ", "\n", ",", "/", "-", ".", ":", "&#", "&a", "</", "%2", "1", "{", "%:", "%::", "%:::", "%-", "%10", "%E", "%^:"];
     let mut strings: Vec<String> = Vec::new();
     for t in triggers {
         for c in ['é', '語', '👍'] {
@@ -494,6 +494,10 @@ fn awkward_strings(report: &Report) {
         templates.push(format!("{{{{ w | {f}: w, w }}}}"));
         templates.push(format!("{{{{ w | {f}: 2, w }}}}"));
         templates.push(format!("{{{{ w | {f}: -4, 3 }}}}"));
+        // an input that parses as a date / a number, so that filters which give up on other inputs reach their argument
+        templates.push(format!("{{{{ '2020-02-29 12:00:00 +0530' | {f}: w }}}}"));
+        templates.push(format!("{{{{ '2020-02-29 12:00:00 +0530' | {f}: w, 3 }}}}"));
+        templates.push(format!("{{{{ 7 | {f}: w }}}}"));
     }
     let datas: Vec<V> = strings.iter().map(|w| V::obj(&[("w", V::s(w))])).collect();
     let globals: Vec<liquid::Object> = datas.iter().map(|d| d.to_object()).collect();
